@@ -29,6 +29,30 @@ func SubscriptionManager.cleanupClientWithoutLocking$1
   ensures !(old(has((*s).topics.m, topic)) && old((*s).topics.m[topic]) - count > 0) ==> !has((*s).topics.m, topic)
   -- every other topic keeps its counter
   ensures forall k Str :: k != topic ==> (has((*s).topics.m, k) <==> old(has((*s).topics.m, k))) && (has((*s).topics.m, k) ==> (*s).topics.m[k] == old((*s).topics.m[k]))
+-- Subscribe as a whole: it reports success only for a client that is connected (for a client that is not connected
+-- nothing changes, so nothing may be reported: the TopicSubscribed event is fired exactly on the paths that return true).
+-- (opt only-ghost-asserts: of this function only the ghost assertion is checked; the event triggers are calls into the
+-- event package that may run arbitrary hooks - what they do to the manager is not decided here)
+func SubscriptionManager.Subscribe
+  instantiate C: string
+  instantiate T: string
+  opt sequential
+  opt only-ghost-asserts
+  requires s != nil && s.subscribers != nil
+  modifies everything
+  ghost local wasconnected Bool
+  ghost at entry: wasconnected = has(s.subscribers.m, clientID)
+  ghost at return: assert r0 ==> wasconnected
+
+-- cleanupClientWithoutLocking takes every count the client holds off the global counter of that topic: it may only be
+-- called in a state in which the global counters INCLUDE the client's counts (which the sum form of the invariant -
+-- topics[t] = sum over the clients of their count of t - implies); otherwise it takes away what other clients hold.
+-- (assumed contract: of the function itself only this precondition and the closure above are under contract)
+assume-func github.com/iotaledger/hive.go/web/subscriptionmanager.SubscriptionManager.cleanupClientWithoutLocking(s, clientID) (r0, r1, r2)
+  requires s != nil && s.subscribers != nil && s.topics != nil
+  requires has(s.subscribers.m, clientID) ==> (forall k T :: has(s.subscribers.m[clientID].m, k) ==> has(s.topics.m, k) && s.topics.m[k] >= s.subscribers.m[clientID].m[k])
+  modifies shrinkingmap.ShrinkingMap.m, shrinkingmap.ShrinkingMap.deletedKeys, allmaps(s.topics.m)
+
 -- Unsubscribe (its locked part): one subscription of the client to the topic goes away - the client's own counter and the
 -- topic's global counter both go down by one, each entry disappearing when nothing is left (by ITS OWN count: the global
 -- entry stays while another client still holds the topic), and the topic is reported removed exactly when its global
@@ -65,10 +89,13 @@ func SubscriptionManager.Subscribe$1
   opt sequential
   opt assume-no-overflow
   requires s != nil && *s != nil && (*s).subscribers != nil && (*s).subscribers.m != nil && unlocked((*s).subscribers.mutex) && (*s).topics != nil && (*s).topics.m != nil && (*s).topics.opts != nil && unlocked((*s).topics.mutex)
-  requires clientID != nil && topic != nil && topicAdded != nil && clientDropped != nil && removedTopics != nil && unsubscribedTopics != nil && !*topicAdded && !*clientDropped && topicAdded != clientDropped
+  requires clientID != nil && topic != nil && topicAdded != nil && clientDropped != nil && clientConnected != nil && removedTopics != nil && unsubscribedTopics != nil && !*topicAdded && !*clientDropped && !*clientConnected && topicAdded != clientDropped && topicAdded != clientConnected && clientDropped != clientConnected
   requires has((*s).subscribers.m, *clientID) ==> (*s).subscribers.m[*clientID] != nil && (*s).subscribers.m[*clientID].m != nil && (*s).subscribers.m[*clientID].opts != nil && unlocked((*s).subscribers.m[*clientID].mutex) && (*s).subscribers.m[*clientID] != (*s).topics && (*s).subscribers.m[*clientID].m != (*s).topics.m && (*s).subscribers.m[*clientID].m != (*s).subscribers.m
   requires (*s).topics.m != (*s).subscribers.m      -- (maps of different Go types)
-  modifies everything
+  -- (consequence of the sum invariant at entry) the global counters include this client's counts
+  requires has((*s).subscribers.m, *clientID) ==> (forall k Str :: has((*s).subscribers.m[*clientID].m, k) ==> has((*s).topics.m, k) && (*s).topics.m[k] >= (*s).subscribers.m[*clientID].m[k])
+  modifies *removedTopics, *unsubscribedTopics, *clientDropped, *topicAdded, *clientConnected, shrinkingmap.ShrinkingMap.m, shrinkingmap.ShrinkingMap.deletedKeys, allmaps((*s).topics.m)
+  ensures *clientConnected <==> old(has((*s).subscribers.m, *clientID))
   ensures !old(has((*s).subscribers.m, *clientID)) ==> !*topicAdded && !*clientDropped && (*s).topics.m == old((*s).topics.m) && (forall k Str :: (has((*s).topics.m, k) <==> old(has((*s).topics.m, k))) && (has((*s).topics.m, k) ==> (*s).topics.m[k] == old((*s).topics.m[k])))
   ensures old(has((*s).subscribers.m, *clientID)) && !*clientDropped ==> (*s).topics == old((*s).topics) && (*s).topics.m == old((*s).topics.m) && has((*s).topics.m, *topic) && (*s).topics.m[*topic] == (old(has((*s).topics.m, *topic)) ? old((*s).topics.m[*topic]) + 1 : 1) && (*topicAdded <==> !old(has((*s).topics.m, *topic)))
   ensures old(has((*s).subscribers.m, *clientID)) && !*clientDropped ==> (forall k Str :: k != *topic ==> (has((*s).topics.m, k) <==> old(has((*s).topics.m, k))) && (has((*s).topics.m, k) ==> (*s).topics.m[k] == old((*s).topics.m[k])))
